@@ -265,6 +265,12 @@ else:
             args = get_args(expected)
             non_none_args = [arg for arg in args if arg is not type(None)]
 
+            # A value that already is one of the member types is kept as it is
+            # (so a digit-string id stays a string under Union[int, str])
+            for union_type in non_none_args:
+                if inspect.isclass(union_type) and type(value) is union_type:
+                    return value
+
             # Try each type in the union
             validation_errors = []
             for union_type in non_none_args:
@@ -325,17 +331,9 @@ else:
                             )
                     elif isinstance(value, str):
                         if is_permissive:
-                            # For fields that were originally Union[str, int], be permissive
-                            # Try conversion first, but accept strings if conversion fails
-                            if value.isdigit() or (
-                                value.startswith("-") and value[1:].isdigit()
-                            ):
-                                try:
-                                    return int(value)
-                                except ValueError:
-                                    return value  # Keep as string
-                            else:
-                                return value  # Keep as string (like "test-1")
+                            # The field is really Union[str, int]: a string is
+                            # already valid and keeps its JSON type (as Pydantic does)
+                            return value
                         else:
                             # For strict int fields, only allow valid integer strings
                             if value.isdigit() or (
